@@ -12,6 +12,26 @@ use crate::{
     router,
 };
 
+type Observer = std::rc::Rc<dyn Fn(usize, Uuid, bool)>;
+
+thread_local! {
+    static OBSERVER: std::cell::RefCell<Option<Observer>> = const { std::cell::RefCell::new(None) };
+}
+
+/// Installs (or removes) this thread's observer of state-machine lifetimes: it is called with
+/// (`Node::id`, computation, true) when a node creates a state machine and with (.., false) when
+/// the machine's `start()` has returned.
+pub fn set_machine_observer(o: Option<Observer>) {
+    OBSERVER.with(|c| *c.borrow_mut() = o);
+}
+
+pub(crate) fn machine_event(node: usize, computation_id: Uuid, started: bool) {
+    let o = OBSERVER.with(|c| c.borrow().clone());
+    if let Some(o) = o {
+        o(node, computation_id, started);
+    }
+}
+
 /// The state and the router of one server, as `server::service` builds them.
 pub struct Node {
     state: PolytuneState,
@@ -41,6 +61,12 @@ impl Node {
         let mut api = aide::openapi::OpenApi::default();
         let router = router::router(state.clone()).finish_api(&mut api);
         Self { state, router }
+    }
+
+    /// Identifies this node in the calls of the machine observer.
+    pub fn id(&self) -> usize {
+        use std::ops::Deref;
+        self.state.deref() as *const PolytuneStateInner as usize
     }
 
     /// The router all incoming requests go through.
